@@ -183,6 +183,19 @@ func childMain(file string) {
 			base, _ := strconv.Atoi(f[3])
 			var wg sync.WaitGroup
 			results := make([][]string, n)
+			// other record files of the same process at the same time: different keys of the one lock table
+			// (a server appends to many boards at once); judged by the race detector and by not crashing
+			for g := 0; g < 4; g++ {
+				wg.Add(1)
+				go func(g int) {
+					defer wg.Done()
+					side := fmt.Sprintf("%s.side%d.%d", file, os.Getpid(), g%2)
+					for k := 0; k < m; k++ {
+						r := pattern(90 + g)
+						_, _ = cmsys.AppendRecord(side, &r, recSize)
+					}
+				}(g)
+			}
 			for g := 0; g < n; g++ {
 				wg.Add(1)
 				go func(g int) {
@@ -907,7 +920,7 @@ func stress(bin string, thorough bool) {
 	}
 	results := map[int][]string{}
 	doneN := 0
-	deadline := time.After(120 * time.Second)
+	deadline := time.After(60 * time.Second)
 	for doneN < nProc {
 		select {
 		case l := <-c.misc:
@@ -920,7 +933,13 @@ func stress(bin string, thorough bool) {
 			}
 		case <-deadline:
 			i := run.Op(fmt.Sprintf("stress %d %d %d", nProc, nG, m), "TIMEOUT", "stress", false)
-			run.Fail(i, "stall", "stress run did not finish")
+			what := "stress run did not finish"
+			for p, ch := range c.children {
+				if e := ch.stderr.String(); strings.Contains(e, "fatal error") {
+					what += fmt.Sprintf("; process %d died: %s", p, strings.SplitN(e[strings.Index(e, "fatal error"):], "\n", 2)[0])
+				}
+			}
+			run.Fail(i, "stall", what)
 			return
 		}
 	}
